@@ -103,6 +103,12 @@ def pivot():
     S.append(EnumSpec("Expr", [U("A", disc="1 << 3", disc_val=8), U("B"), U("C", disc="BASE_EXPR + 2", disc_val=12),
                                U("H", disabled=True), U("D")], derives=d, std_derives=std, repr="u8",
                       note="expression-valued discriminants"))
+    S.append(EnumSpec("ViaMacro", [U("A", disc="$base * 2", disc_val=6), U("B"), U("H", disabled=True), U("C", disc="$base * 4 + $off", disc_val=15), U("D", disc="$lit", disc_val=40), U("E")],
+                      derives=d, std_derives=std, repr="u16", macro_args=[("base", "expr", "1 + 2"), ("off", "expr", "7 - 4"), ("lit", "literal", "40")],
+                      note="the enum is the body of a macro_rules! macro; discriminants are built from $x:expr fragments (operator precedence of the substituted expression)"))
+    S.append(EnumSpec("ViaMacroNeg", [U("A", disc="-$base", disc_val=-5), U("B"), U("C", disc="$base * $base", disc_val=25), U("D", disc="$base as i8 as i32 + <$t>::MAX as i32", disc_val=260)],
+                      derives=d, std_derives=std, repr="i32", macro_args=[("base", "expr", "2 + 3"), ("t", "ty", "u8")],
+                      note="macro_rules! body: negated / squared $x:expr fragment and a $t:ty fragment inside discriminant expressions"))
     S.append(EnumSpec("ExprTy8", [U("Half", disc="!0 >> 1", disc_val=127), U("Next"), U("H", disabled=True), U("Q", disc="!0 / 4", disc_val=63), U("R")],
                       derives=d, std_derives=std, repr="u8", note="expressions whose value depends on being typed at the repr type (u8): !0 >> 1, !0 / 4"))
     S.append(EnumSpec("ExprTy16", [U("A", disc="!0 >> 4", disc_val=0x0fff), U("B"), U("C", disc="1 << 15", disc_val=32768), U("D")],
